@@ -452,16 +452,24 @@ pub async fn stream_open(world: Arc<World>, c: usize, sub: String, max_msgs: i64
 
 impl StreamHandle {
     /// Sends a control message (acks and/or deadline modifications).
-    pub fn send(&self, world: &World, acks: &[AckRef], mods: &[(AckRef, i32)], raw: Option<StreamingPullRequest>) {
+    pub fn send(&self, world: &World, acks: &[AckRef], mods: &[(AckRef, i32)], raw: Option<(String, i64, i64, Option<Vec<i32>>)>) {
         let ack_ids = resolve_acks(world, &self.sub, acks);
         let mod_ids = resolve_acks(world, &self.sub, &mods.iter().map(|m| m.0.clone()).collect::<Vec<_>>());
         let mod_secs = mods.iter().map(|m| m.1).collect::<Vec<_>>();
-        let request = raw.unwrap_or(StreamingPullRequest {
+        let mut request = StreamingPullRequest {
             ack_ids: ack_ids.clone(),
             modify_deadline_ack_ids: mod_ids.clone(),
             modify_deadline_seconds: mod_secs.clone(),
             ..Default::default()
-        });
+        };
+        if let Some((rsub, rmax, rmaxb, rsecs)) = raw {
+            request.subscription = rsub;
+            request.max_outstanding_messages = rmax;
+            request.max_outstanding_bytes = rmaxb;
+            if let Some(secs) = rsecs {
+                request.modify_deadline_seconds = secs;
+            }
+        }
         world.ev(
             "ssend",
             json!({"c": self.c, "sub": self.sub, "acks": acks_json(&request.ack_ids),
